@@ -436,6 +436,10 @@ SMARTS = ['[C;D1]-[C;!R]=O', '[#6]-[#8]', '[O,N;D1]', 'c:c', '[C;D3](=O)[O;D1]',
 # correspondence (reference path), the brute-force search (reference and default path) and the RDKit comparison
 LIST_SMARTS = ['[Cl,Br]-[#6]', '[Si,P]-[#6]', '[Br,I]', '[Cl,F]-[#6]', '[Se,Sn]', '[Na,K]', '[Si,Se;D2]', '[#6]-[Cl,Br,I]']
 HETERO_TARGETS = ['ClCCBr', 'OB(O)CCBr', 'C[Si](C)(C)CSC', 'FC(Cl)CN', 'C[Se]CSN', 'CCO', 'IC(Br)CP']
+# ring sizes the bit masks of the accelerated matcher cannot express (above 65): a query asking for such a ring, and a target whose only ring
+# is that large (the library sends both to the reference path; the DEFAULT call must still return exactly the embeddings)
+BIG_RING = 'C1' + 'C' * 64 + 'C1'                        # a 66-membered carbocycle
+BIG_RING_PAIRS = [('[C;r66]', 'CCC'), ('[C;!R]', BIG_RING), ('[C;r66]', BIG_RING), ('[C;!R]', 'CCC'), ('[C;r66,r6]', 'C1CCCCC1C'), ('[C;D2]', BIG_RING)]
 # the part of the SMARTS language that chython and RDKit read identically on neutral, isotope-free, radical-free targets whose aromatic
 # bonds both toolkits agree on: atomic numbers, lists of them, degree, bond orders - = # :, ring marks @ !@ on bonds
 RDKIT_SMARTS = ['[#6]-;!@[#6]', '[#6]-;@[#6]', '[#6]=;!@[#6]', '[#6]=;@[#6]', '[#6]-,=;!@[#8]', '[#6]-;@[#8]', '[#6]=[#8]', '[#6]-[#8]', '[#6]#[#7]',
@@ -1735,6 +1739,7 @@ def search_accelerated(ck):
     qs = [(x, smarts(x)) for x in RING_QUERIES + ['[#6]-;@[#6]', '[#6]-;!@[#6]', 'C1CC1CC', '[A;h0]1[A][A]1', 'CC', '[A][A]([A])[A]']]
     targets = [(x, smiles(x)) for x in POLY_TARGETS]
     lists = [(smarts(s), smiles(x), s, x) for s in LIST_SMARTS for x in HETERO_TARGETS]     # the bit-mask compiler reads the list's atomic numbers too
+    lists += [(smarts(s), smiles(x), s, x) for s, x in BIG_RING_PAIRS]
     pool = [m for m in mol_pool(ck, 30 if ck.tier == 'quick' else 300, 24, 'c07-accel') if len(m.sssr) >= 2][:10 if ck.tier == 'quick' else 100]
     targets += [(str(m), m) for m in pool]
     pre = 'import iso_pyx; iso_pyx.inject(); from chython import smiles, smarts; '
